@@ -1,4 +1,5 @@
 // ===== prelude/base.rs — TRUSTED: errors, byte streams (std::io / byteorder contracts) =====
+global size_of usize == 8;  // ASSUMPTION: 64-bit target (usize = u64)
 #[derive(Debug, Copy, Clone, Eq, PartialEq)]
 pub enum RdpErrorKind {
     InvalidData,
